@@ -9,12 +9,14 @@ import (
 	"sync/atomic"
 	"time"
 
+	"github.com/pingcap/failpoint"
 	"github.com/pingcap/kvproto/pkg/metapb"
 	"github.com/pingcap/tidb/pkg/store/mockstore/unistore"
 	"github.com/tikv/client-go/v2/testutils"
 	"github.com/tikv/client-go/v2/tikv"
 	"github.com/tikv/client-go/v2/tikvrpc"
 	"github.com/tikv/client-go/v2/txnkv/transaction"
+	"github.com/tikv/client-go/v2/util"
 	"github.com/tikv/client-go/v2/util/async"
 	"github.com/tikv/client-go/v2/util/codec"
 	pd "github.com/tikv/pd/client"
@@ -48,6 +50,7 @@ type Universe struct {
 	late           lateQueue
 	bg             atomic.Int64 // background goroutines of transactions begun through the harness
 	closed         bool
+	topoMu         sync.Mutex // serializes topology changes issued from concurrent RPC hooks
 	panicMu        sync.Mutex
 	panics         []BackendPanic
 }
@@ -76,6 +79,12 @@ func (c *unistoreClientWrapper) SetEventListener(listener tikv.ClientEventListen
 // New creates a universe.  stores is the number of stores (mocktikv only;
 // unistore is single-store).
 func New(backend string, stores int) (*Universe, error) {
+	enableFailpointsOnce.Do(func() {
+		// The stores of both mocks have no real address: the client's store health check would dial
+		// "store1" and mark the store unreachable for good after the first injected transport error.
+		util.EnableFailpoints()
+		_ = failpoint.Enable("tikvclient/injectLiveness", `return("reachable")`)
+	})
 	u := &Universe{Backend: backend, Log: &Log{}, Clock: NewVClock()}
 	switch backend {
 	case Mock:
@@ -226,6 +235,8 @@ func (u *Universe) Close() {
 // SplitAt splits the region containing key at key (raw key).  Returns false
 // if key already is a region start.
 func (u *Universe) SplitAt(key []byte) bool {
+	u.topoMu.Lock()
+	defer u.topoMu.Unlock()
 	if len(key) == 0 {
 		return false
 	}
@@ -264,6 +275,8 @@ func (u *Universe) SplitAt(key []byte) bool {
 // MoveLeader transfers the leader of the region containing key to another
 // store (mocktikv with several stores only).
 func (u *Universe) MoveLeader(key []byte, pick int) bool {
+	u.topoMu.Lock()
+	defer u.topoMu.Unlock()
 	if u.MockCl == nil {
 		return false
 	}
@@ -288,6 +301,8 @@ func (u *Universe) MoveLeader(key []byte, pick int) bool {
 
 // MergeAt merges the region containing key with its right neighbour (mocktikv only).
 func (u *Universe) MergeAt(key []byte) bool {
+	u.topoMu.Lock()
+	defer u.topoMu.Unlock()
 	if u.MockCl == nil {
 		return false
 	}
@@ -333,3 +348,5 @@ func (u *Universe) Panics() []BackendPanic {
 	defer u.panicMu.Unlock()
 	return append([]BackendPanic(nil), u.panics...)
 }
+
+var enableFailpointsOnce sync.Once
